@@ -1,6 +1,7 @@
 import PybropsModel.J
 import PybropsModel.Model.Recomb
 import PybropsModel.Model.Mating
+import PybropsModel.Model.RecombShare
 open Lean
 
 namespace Drv.C02
@@ -290,10 +291,27 @@ def opEmbvCalls : J.Op := fun j => do
   let nr ← J.field j "nrep" (J.list J.nat)
   pure <| J.ofList J.ofNat (embvCalls np nr)
 
+/-- model of a history over two matrix objects (`kind = shared`): the parent holds the arrays of interpolation 0, the
+    child is derived from it, `target` is re-interpolated `ninterp` times; an array is represented by the number of the
+    interpolation that produced it.  Answer: which interpolation each object reads its arrays from. -/
+def opHistory : J.Op := fun j => do
+  let target ← J.field j "target" J.str
+  let n ← J.field j "ninterp" J.nat
+  let t := if target == "parent" then 0 else 1
+  let st0 : RecombShare.St Nat := ⟨[0, 0], [⟨1, 0⟩]⟩
+  let hist : List (RecombShare.Op Nat) :=
+    RecombShare.Op.derive 0 :: (List.range n).map (fun k => RecombShare.Op.interp t (k + 1) (k + 1))
+  let st := RecombShare.run st0 hist
+  let one (i : Nat) : Json :=
+    match RecombShare.read st i with
+    | some (gp, xo) => J.obj [("gp_from", J.ofNat gp), ("xo_from", J.ofNat xo)]
+    | none => J.obj [("error", J.ofStr "dangling reference")]
+  pure <| J.obj [("parent", one 0), ("child", one 1)]
+
 def ops : List (String × J.Op) :=
   [("c02.meiosis", opMeiosis), ("c02.spec_meiosis", opSpecMeiosis), ("c02.spec_labels", opSpecLabels),
    ("c02.probs", opProbs), ("c02.gdist", opGdist), ("c02.proto_calls", opProtoCalls),
    ("c02.embv_calls", opEmbvCalls), ("c02.proto_full", opProtoFull), ("c02.embv_full", opEmbvFull),
-   ("c02.spec_starts", opSpecStarts)]
+   ("c02.spec_starts", opSpecStarts), ("c02.history", opHistory)]
 
 end Drv.C02
